@@ -14,6 +14,10 @@
    Switches are independent in the controller (all tables are keyed by switch); the harness runs several
    switches at once and projects the timeline on each of them.
 
+   Also modelled from mpf/devices/switch.py: mute/unmute (a muted switch updates state/last_change and cancels
+   the pending timed handlers but calls no handler) and the ignore window (ignore_window_ms:
+   _post_events_with_recycle / _recycle_passed and its timer).
+
    Callbacks are scripted: callback number cb, when invoked, performs the list of actions `A cb`
    (register / remove handlers on the same switch).  Event posts of the Switch device
    (`_post_events`, `events.post` partials of "event|ms" entries) are callbacks with numbers >= 1000 and
@@ -33,12 +37,18 @@ Record regs := mkR { r0 : list entry; r1 : list entry; ruid : Z }.
 (* timed = None: switch not in _active_timed_switches; cur: _timed_switch_handler_delay[switch];
    wakes: the not-cancelled _process_active_timed_switches handles in the loop's timer heap *)
 Record timers := mkT { timed : option table; cur : option wake; wakes : list wake; wid : Z }.
-Record state := mkS { inv : bool; sst : bool; hw : bool; lc : Z; rg : regs; tm : timers }.
+(* the Switch device: mute sources (_mutes), ignore window in us (recycle_secs; 0 = none), and the open window
+   (recycle_clear_time, state argument of the pending _recycle_passed timer) *)
+Record dev := mkD { mutes : list Z; rwin : Z; rc : option (Z * bool) }.
+Record state := mkS { inv : bool; sst : bool; hw : bool; lc : Z; rg : regs; tm : timers; dv : dev }.
 
 Definition us (ms : Z) : Z := ms * 1000.
 
-Definition set_tm (s : state) (T : timers) : state := mkS (inv s) (sst s) (hw s) (lc s) (rg s) T.
-Definition set_rg (s : state) (r : regs) : state := mkS (inv s) (sst s) (hw s) (lc s) r (tm s).
+Definition set_tm (s : state) (T : timers) : state := mkS (inv s) (sst s) (hw s) (lc s) (rg s) T (dv s).
+Definition set_rg (s : state) (r : regs) : state := mkS (inv s) (sst s) (hw s) (lc s) r (tm s) (dv s).
+Definition set_dv (s : state) (d : dev) : state := mkS (inv s) (sst s) (hw s) (lc s) (rg s) (tm s) d.
+Definition set_rc (s : state) (w : option (Z * bool)) : state := set_dv s (mkD (mutes (dv s)) (rwin (dv s)) w).
+Definition b2z (b : bool) : Z := if b then 1 else 0.
 Definition t_timed (T : timers) (d : option table) : timers := mkT d (cur T) (wakes T) (wid T).
 
 Definition reg_of (r : regs) (st : bool) : list entry := if st then r1 r else r0 r.
@@ -113,7 +123,7 @@ Definition add (now : Z) (s : state) (cb : Z) (st : bool) (ms : Z) : state :=
   let r' := set_reg (mkR (r0 r) (r1 r) (ruid r + 1)) st (reg_of r st ++ [(ruid r, cb, ms)]) in
   let T' := if negb (ms =? 0) && (lc s >? now - us ms) && Bool.eqb st (sst s)
             then add_timed (tm s) (lc s + us ms) (cb, st, ms) else tm s in
-  mkS (inv s) (sst s) (hw s) (lc s) r' T'.
+  mkS (inv s) (sst s) (hw s) (lc s) r' T' (dv s).
 
 Definition ent_match (cb ms : Z) (e : entry) : bool := (snd e =? ms) && (snd (fst e) =? cb).
 
@@ -127,7 +137,7 @@ Definition rem (s : state) (cb : Z) (st : bool) (ms : Z) : state :=
             | None => tm s
             | Some d => t_timed (tm s) (Some (tbl_filter (cb, st, ms) d))
             end in
-  mkS (inv s) (sst s) (hw s) (lc s) r' T'.
+  mkS (inv s) (sst s) (hw s) (lc s) r' T' (dv s).
 
 Definition run_act (now : Z) (s : state) (a : act) : state :=
   match a with
@@ -136,6 +146,29 @@ Definition run_act (now : Z) (s : state) (a : act) : state :=
   end.
 
 Definition run_acts (now : Z) (s : state) (l : list act) : state := fold_left (run_act now) l s.
+
+(* ---- invoking an untimed registry entry -------------------------------------------------------------
+   callbacks 1010/1011 are Switch._post_events_with_recycle(state=0/1) (registered instead of _post_events when
+   ignore_window_ms > 0): while no window is open they open one until last_change + window and post the events
+   of the state (observed as callback 1000/1001); while a window is open they do nothing.  Every other callback
+   is invoked (observed) and performs its scripted actions. *)
+Definition is_rcb (cb : Z) : bool := (cb =? 1010) || (cb =? 1011).
+
+Definition invoke (A : Z -> list act) (now : Z) (s : state) (cb : Z) (v : bool) : state * list obs :=
+  if is_rcb cb then
+    match rc (dv s) with
+    | Some _ => (s, [])
+    | None => (set_rc s (Some (lc s + rwin (dv s), v)), [Fire now (1000 + b2z v) v 0])
+    end
+  else (run_acts now s (A cb), [Fire now cb v 0]).
+
+(* Switch._recycle_passed(state=v0), run by the loop at recycle_clear_time *)
+Definition recycle_passed (now : Z) (s : state) : state * list obs :=
+  match rc (dv s) with
+  | None => (s, [])
+  | Some (_, v0) =>
+      (set_rc s None, if Bool.eqb (sst s) v0 then [] else [Fire now (1000 + b2z (sst s)) (sst s) 0])
+  end.
 
 (* ---- _call_handlers ------------------------------------------------------------------------------ *)
 Definition ent_eqb (a b : entry) : bool :=
@@ -151,7 +184,7 @@ Definition call_one (A : Z -> list act) (now : Z) (v : bool) (acc : state * list
   let cb := snd (fst e) in
   let ms := snd e in
   if negb (live s v e) then (s, lg)                                     (* entry.cancelled *)
-  else if ms =? 0 then (run_acts now s (A cb), lg ++ [Fire now cb v 0])
+  else if ms =? 0 then (fst (invoke A now s cb v), lg ++ snd (invoke A now s cb v))
   else (set_tm s (add_timed (tm s) (lc s + us ms) (cb, v, ms)), lg).
 
 Definition call_handlers (A : Z -> list act) (now : Z) (s : state) (v : bool) : state * list obs :=
@@ -165,8 +198,11 @@ Definition report (A : Z -> list act) (now : Z) (s : state) (logical val : bool)
   let v := logical_of (inv s) logical val in
   if Bool.eqb v (sst s) then (s, [])
   else
-    let s1 := mkS (inv s) v (hw_of (inv s) logical val) now (rg s) (cancel (tm s)) in
-    call_handlers A now s1 v.
+    let s1 := mkS (inv s) v (hw_of (inv s) logical val) now (rg s) (cancel (tm s)) (dv s) in
+    match mutes (dv s) with
+    | [] => call_handlers A now s1 v
+    | _ :: _ => (s1, [])                      (* muted: state, last_change, cancellation; no handlers *)
+    end.
 
 (* ---- _process_active_timed_switches -------------------------------------------------------------- *)
 Definition get_tbl (s : state) : table := match timed (tm s) with Some d => d | None => [] end.
@@ -216,6 +252,8 @@ Inductive op :=
 | OAdd (cb : Z) (st : bool) (ms : Z)
 | ORem (cb : Z) (st : bool) (ms : Z)
 | OQuery (st : bool) (ms : Z)
+| OMute (src : Z)
+| OUnmute (src : Z)
 | ONop.
 
 Definition step_op (A : Z -> list act) (now : Z) (s : state) (o : op) : state * list obs :=
@@ -224,6 +262,9 @@ Definition step_op (A : Z -> list act) (now : Z) (s : state) (o : op) : state * 
   | OAdd cb st ms => (add now s cb st ms, [])
   | ORem cb st ms => (rem s cb st ms, [])
   | OQuery st ms => (s, [QRes now (query now s st ms)])
+  | OMute src => (set_dv s (mkD (if existsb (Z.eqb src) (mutes (dv s)) then mutes (dv s) else src :: mutes (dv s))
+                                (rwin (dv s)) (rc (dv s))), [])
+  | OUnmute src => (set_dv s (mkD (filter (fun x => negb (x =? src)) (mutes (dv s))) (rwin (dv s)) (rc (dv s))), [])
   | ONop => (s, [])
   end.
 
@@ -236,20 +277,31 @@ Fixpoint earliest (l : list wake) : option wake :=
                end
   end.
 
-(* run every wake-up due at or before t (TimeTravelLoop: the clock jumps to each timer) *)
+(* run every timer (wake-ups and the recycle timer) due at or before t, earliest first (TimeTravelLoop: the
+   clock jumps to each timer).  A recycle timer and a wake-up due at the same instant commute (the first only
+   reads the state and posts events, the second only touches registries/timers); the recycle timer goes first. *)
+Definition due_recycle (s : state) (t : Z) : option Z :=
+  match rc (dv s) with Some (tr, _) => if tr <=? t then Some tr else None | None => None end.
+Definition due_wake (s : state) (t : Z) : option wake :=
+  match earliest (wakes (tm s)) with Some (w, tw) => if tw <=? t then Some (w, tw) else None | None => None end.
+
 Fixpoint advance (A : Z -> list act) (fuel : nat) (t clk : Z) (s : state) : state * list obs * Z :=
   match fuel with
   | O => (s, [Crash (-1)], clk)
   | S f =>
-      match earliest (wakes (tm s)) with
-      | None => (s, [], clk)
-      | Some (w, tw) =>
-          if tw <=? t then
-            let now := Z.max tw clk in
-            let '(s1, o1) := process A now s w in
-            let '(s2, o2, clk2) := advance A f t now s1 in
-            (s2, o1 ++ o2, clk2)
-          else (s, [], clk)
+      let run_r tr :=
+          let now := Z.max tr clk in
+          let '(s1, o1) := recycle_passed now s in
+          let '(s2, o2, clk2) := advance A f t now s1 in (s2, o1 ++ o2, clk2) in
+      let run_w w tw :=
+          let now := Z.max tw clk in
+          let '(s1, o1) := process A now s w in
+          let '(s2, o2, clk2) := advance A f t now s1 in (s2, o1 ++ o2, clk2) in
+      match due_recycle s t, due_wake s t with
+      | Some tr, Some (w, tw) => if tr <=? tw then run_r tr else run_w w tw
+      | Some tr, None => run_r tr
+      | None, Some (w, tw) => run_w w tw
+      | None, None => (s, [], clk)
       end
   end.
 
@@ -266,7 +318,7 @@ Fixpoint run_ops (A : Z -> list act) (fuel : nat) (clk : Z) (s : state) (ops : l
 
 (* ---- the explicit-schedule semantics used by the theorems ------------------------------------------
    An event is an external operation or "the loop runs the earliest pending wake-up", each at a time. *)
-Inductive ev := EOp (o : op) | EWake.
+Inductive ev := EOp (o : op) | EWake | ERecycle.
 
 Definition step (A : Z -> list act) (s : state) (te : Z * ev) : state * list obs :=
   match snd te with
@@ -275,6 +327,7 @@ Definition step (A : Z -> list act) (s : state) (te : Z * ev) : state * list obs
              | Some (w, _) => process A (fst te) s w
              | None => (s, [])
              end
+  | ERecycle => recycle_passed (fst te) s
   end.
 
 Fixpoint exec (A : Z -> list act) (s : state) (evs : list (Z * ev)) : state * list obs :=
@@ -297,12 +350,11 @@ Fixpoint mk_reg (uid : Z) (l : list (Z * Z)) : list entry :=
   | (cb, ms) :: l' => (uid, cb, ms) :: mk_reg (uid + 1) l'
   end.
 
-Definition init_state (nc st h : bool) (lc0 : Z) (reg0 reg1 : list (Z * Z)) : state :=
+Definition init_state (nc st h : bool) (lc0 win : Z) (reg0 reg1 : list (Z * Z)) : state :=
   mkS nc st h lc0
       (mkR (mk_reg 0 reg0) (mk_reg (Z.of_nat (length reg0)) reg1) (Z.of_nat (length reg0 + length reg1)))
-      (mkT None None [] 0).
+      (mkT None None [] 0) (mkD [] win None).
 
-Definition b2z (b : bool) : Z := if b then 1 else 0.
 Definition is_ev (cb : Z) : bool := 1000 <=? cb.
 
 Definition rows_cb (l : list obs) : list (list Z) :=
@@ -318,19 +370,21 @@ Fixpoint insert_z (x : Z) (l : list Z) : list Z :=
   match l with [] => [x] | y :: l' => if x <=? y then x :: l else y :: insert_z x l' end.
 Definition sort_z (l : list Z) : list Z := fold_right insert_z [] l.
 
-(* input: ((nc, state0, hw0, lc0), (reg0, reg1), acts, ops, (t_end, fuel)) *)
-Definition input := ((bool * bool * bool * Z) * (list (Z * Z) * list (Z * Z)) * list (Z * list act)
+(* input: ((nc, state0, hw0, lc0, window_us), (reg0, reg1), acts, ops, (t_end, fuel)) *)
+Definition input := ((bool * bool * bool * Z * Z) * (list (Z * Z) * list (Z * Z)) * list (Z * list act)
                      * list (Z * op) * (Z * Z))%type.
 
 Definition run_case (i : input) : list (list Z) :=
   let '(c, rr, tab, ops, (tend, fuel)) := i in
-  let '(nc, st0, h0, lc0) := c in
-  let s0 := init_state nc st0 h0 lc0 (fst rr) (snd rr) in
+  let '(nc, st0, h0, lc0, win) := c in
+  let s0 := init_state nc st0 h0 lc0 win (fst rr) (snd rr) in
   let '(s, lg) := run_ops (acts_of tab) (Z.to_nat fuel) 0 s0 (ops ++ [(tend, ONop)]) in
   rows_cb lg ++ rows_ev lg ++ rows_q lg ++ rows_crash lg
   ++ [[9; b2z (sst s); b2z (hw s); lc s]]
   ++ [8 :: sort_z (map snd (wakes (tm s)))]
-  ++ [7 :: match cur (tm s) with Some (_, t) => [t] | None => [] end].
+  ++ [7 :: match cur (tm s) with Some (_, t) => [t] | None => [] end]
+  ++ [6 :: match rc (dv s) with Some (t, _) => [t] | None => [] end]
+  ++ [[5; b2z (match mutes (dv s) with [] => false | _ => true end)]].
 
 Definition run := map run_case : list input -> list (list (list Z)).
 Definition out_eqb := zsss_eqb.
